@@ -131,9 +131,10 @@ theorem minmax_range [Sqrt α] [FinTest α] (hfin : ∀ y : α, FinTest.isFin y 
 /-- mean scaling centres the values the statistics were computed from (their scaled values sum to 0) and, when the
     range reaches `ε`, gives them range exactly 1 (`scale(max) − scale(min) = 1`). -/
 theorem mean_centered [Sqrt α] [FinTest α] (hfin : ∀ y : α, FinTest.isFin y = true)
-    (hi lo eps : α) (xs : List (Option α)) (hne : present xs ≠ []) :
+    (hi lo eps : α) (heps : 0 < eps) (xs : List (Option α))
+    (hb : ∀ v ∈ present xs, lo ≤ v ∧ v ≤ hi) (hne : present xs ≠ []) :
     ((present xs).map (fun v => scaleCell .mean (columnStats hi lo eps true xs) (some v))).sum = 0 ∧
-    (eps ≤ (columnStats hi lo eps true xs).mx - (columnStats hi lo eps true xs).mn → 0 < eps →
+    (eps ≤ (columnStats hi lo eps true xs).mx - (columnStats hi lo eps true xs).mn →
       scaleCell .mean (columnStats hi lo eps true xs) (some (columnStats hi lo eps true xs).mx) -
         scaleCell .mean (columnStats hi lo eps true xs) (some (columnStats hi lo eps true xs).mn) = 1) := by
   obtain ⟨hn, hsum, -, -, -⟩ := accumulate_spec hi lo xs
@@ -151,7 +152,7 @@ theorem mean_centered [Sqrt α] [FinTest α] (hfin : ∀ y : α, FinTest.isFin y
       simp [columnStats, finalize, h1]
     rw [hs]
     simp only [scaleCell, nan2zero, hfin, if_true]
-    refine ⟨?_, fun he heps => ?_⟩
+    refine ⟨?_, fun he => ?_⟩
     · rw [sum_map_sub_mul, hn, hsum]
       have : (present xs).sum - ((present xs).length : α) * ((present xs).sum / ((present xs).length : α)) = 0 := by
         field_simp; ring
@@ -171,17 +172,260 @@ theorem mean_centered [Sqrt α] [FinTest α] (hfin : ∀ y : α, FinTest.isFin y
     rw [hs]
     simp only [scaleCell, nan2zero, hfin, if_true]
     have hlen : (present xs).length = 1 := by omega
-    refine ⟨?_, fun he heps => ?_⟩
+    refine ⟨?_, fun he => ?_⟩
     · rw [sum_map_sub_mul, hsum, hlen]; simp
     · -- a single sample has range 0 < ε
       exfalso
       obtain ⟨-, -, -, hmn, hmx⟩ := accumulate_spec hi lo xs
+      obtain ⟨hmin_mem, -⟩ := foldl_min_attained (present xs) hi hne (fun v hv => (hb v hv).2)
+      obtain ⟨hmax_mem, -⟩ := foldl_max_attained (present xs) lo hne (fun v hv => (hb v hv).1)
+      rw [← hmn] at hmin_mem
+      rw [← hmx] at hmax_mem
       match hp : present xs, hlen with
       | [w], _ =>
-        rw [hp] at hmn hmx
-        simp only [List.foldl_cons, List.foldl_nil] at hmn hmx
-        -- min hi w ≤ w ≤ max lo w
-        have : (accumulate hi lo xs).mx - (accumulate hi lo xs).mn ≥ eps := he
-        sorry
+        rw [hp] at hmin_mem hmax_mem
+        simp only [List.mem_singleton] at hmin_mem hmax_mem
+        simp only [hmin_mem, hmax_mem, sub_self] at he
+        exact absurd he (not_le.mpr heps)
+
+/-- the accumulated `Σx² − (Σx)²/N` is never negative in exact arithmetic (Cauchy–Schwarz), for any data with at least
+    one present value -/
+theorem var_nonneg (hi lo : α) (xs : List (Option α)) (hne : present xs ≠ []) :
+    0 ≤ (accumulate hi lo xs).sum2 -
+      (accumulate hi lo xs).sum * (accumulate hi lo xs).sum / ((accumulate hi lo xs).n : α) := by
+  obtain ⟨hn, hsum, hsum2, -, -⟩ := accumulate_spec hi lo xs
+  rw [hn, hsum, hsum2]
+  exact sumSq_sub_nonneg (present xs) hne
+
+/-- hence the clamp `std::max(variance, 0.0)` before the square root changes nothing in exact arithmetic: it only
+    absorbs rounding (the repaired defect: a tiny negative rounded variance of a constant column gave `sqrt` = NaN) -/
+theorem clamp_is_identity (hi lo : α) (xs : List (Option α)) (h2 : 2 ≤ (present xs).length) :
+    0 ≤ rawVar (accumulate hi lo xs) ∧ cmax (rawVar (accumulate hi lo xs)) 0 = rawVar (accumulate hi lo xs) := by
+  have hne : present xs ≠ [] := by intro h; rw [h] at h2; simp at h2
+  have hv := var_nonneg hi lo xs hne
+  obtain ⟨hn, -, -, -, -⟩ := accumulate_spec hi lo xs
+  have hpos : (0 : α) < ((accumulate hi lo xs).n : α) - 1 := by
+    rw [hn]
+    have : (2 : α) ≤ ((present xs).length : α) := by exact_mod_cast h2
+    linarith
+  have h0 : 0 ≤ rawVar (accumulate hi lo xs) := div_nonneg hv (le_of_lt hpos)
+  exact ⟨h0, by rw [cmax_eq_max]; exact max_eq_left h0⟩
+
+theorem sq_div_aux (a sd V : α) (h : sd * sd = V) (hsd : sd ≠ 0) :
+    a * (1 / sd) * (a * (1 / sd)) = a * a * (1 / V) := by
+  subst h; field_simp
+
+theorem mul_inv_div_aux (X d : α) (hX : X ≠ 0) (hd : d ≠ 0) : X * (1 / (X / d)) = d := by
+  field_simp
+
+/-- standardisation: when the standard deviation `sd` of the column (`sd·sd` = its unbiased variance) reaches `ε`,
+    the scaled values of the samples the statistics were computed from have mean 0 and unbiased variance 1
+    (`Σ z = 0`, `Σ z² = N − 1`). -/
+theorem standard_unit [Sqrt α] [FinTest α] (hfin : ∀ y : α, FinTest.isFin y = true)
+    (hi lo eps : α) (heps : 0 < eps) (xs : List (Option α)) (h2 : 2 ≤ (present xs).length)
+    (hsq : Sqrt.sqrt (rawVar (accumulate hi lo xs)) * Sqrt.sqrt (rawVar (accumulate hi lo xs)) =
+      rawVar (accumulate hi lo xs))
+    (hge : eps ≤ Sqrt.sqrt (rawVar (accumulate hi lo xs))) :
+    ((present xs).map (fun v => scaleCell .standard (columnStats hi lo eps true xs) (some v))).sum = 0 ∧
+    ((present xs).map (fun v => scaleCell .standard (columnStats hi lo eps true xs) (some v) *
+        scaleCell .standard (columnStats hi lo eps true xs) (some v))).sum = ((present xs).length : α) - 1 := by
+  obtain ⟨hn, hsum, hsum2, -, -⟩ := accumulate_spec hi lo xs
+  obtain ⟨-, hclamp⟩ := clamp_is_identity hi lo xs h2
+  have hne : present xs ≠ [] := by intro h; rw [h] at h2; simp at h2
+  have h1 : (accumulate hi lo xs).n > 1 := by omega
+  have hsd : cmax (Sqrt.sqrt (rawVar (accumulate hi lo xs))) eps = Sqrt.sqrt (rawVar (accumulate hi lo xs)) := by
+    rw [cmax_eq_max]; exact max_eq_left hge
+  have hs : columnStats hi lo eps true xs =
+      ⟨(accumulate hi lo xs).n, (accumulate hi lo xs).mn, (accumulate hi lo xs).mx,
+        (accumulate hi lo xs).sum / ((accumulate hi lo xs).n : α),
+        Sqrt.sqrt (rawVar (accumulate hi lo xs)),
+        1 / cmax ((accumulate hi lo xs).mx - (accumulate hi lo xs).mn) eps,
+        cmax ((accumulate hi lo xs).mx - (accumulate hi lo xs).mn) eps,
+        1 / Sqrt.sqrt (rawVar (accumulate hi lo xs)),
+        Sqrt.sqrt (rawVar (accumulate hi lo xs))⟩ := by
+    simp [columnStats, finalize, h1, hclamp, hsd]
+  rw [hs]
+  simp only [scaleCell, nan2zero, hfin, if_true]
+  have hn2 : (2 : α) ≤ ((present xs).length : α) := by exact_mod_cast h2
+  have hnz : ((present xs).length : α) ≠ 0 := by linarith
+  have hn1 : ((present xs).length : α) - 1 ≠ 0 := by linarith
+  have hsdpos : 0 < Sqrt.sqrt (rawVar (accumulate hi lo xs)) := lt_of_lt_of_le heps hge
+  constructor
+  · rw [sum_map_sub_mul, hn, hsum]
+    have : (present xs).sum - ((present xs).length : α) * ((present xs).sum / ((present xs).length : α)) = 0 := by
+      field_simp; ring
+    rw [this, zero_mul]
+  · -- Σ ((v − m)/sd)² = (Σ (v − m)²)/sd² = (Σx² − (Σx)²/N)/var = N − 1
+    have hre : ∀ v : α, (v - (accumulate hi lo xs).sum / ((accumulate hi lo xs).n : α)) *
+          (1 / Sqrt.sqrt (rawVar (accumulate hi lo xs))) *
+        ((v - (accumulate hi lo xs).sum / ((accumulate hi lo xs).n : α)) *
+          (1 / Sqrt.sqrt (rawVar (accumulate hi lo xs)))) =
+        (v - (accumulate hi lo xs).sum / ((accumulate hi lo xs).n : α)) *
+          (v - (accumulate hi lo xs).sum / ((accumulate hi lo xs).n : α)) *
+          (1 / rawVar (accumulate hi lo xs)) :=
+      fun v => sq_div_aux _ _ _ hsq hsdpos.ne'
+    simp only [hre]
+    rw [sum_map_mul_right (present xs)
+      (fun v => (v - (accumulate hi lo xs).sum / ((accumulate hi lo xs).n : α)) *
+        (v - (accumulate hi lo xs).sum / ((accumulate hi lo xs).n : α)))]
+    rw [hn, hsum, ← sumSq_sub_eq (present xs) hne]
+    have hvar : rawVar (accumulate hi lo xs) =
+        (sumSq (present xs) - (present xs).sum * (present xs).sum / ((present xs).length : α)) /
+          (((present xs).length : α) - 1) := by
+      simp only [rawVar, hn, hsum, hsum2]
+    have hvpos : 0 < rawVar (accumulate hi lo xs) := by rw [← hsq]; exact mul_pos hsdpos hsdpos
+    rw [hvar] at hvpos ⊢
+    have hnum : sumSq (present xs) - (present xs).sum * (present xs).sum / ((present xs).length : α) ≠ 0 := by
+      intro h0
+      rw [h0, zero_div] at hvpos
+      exact lt_irrefl _ hvpos
+    exact mul_inv_div_aux _ _ hnum hn1
+
+/-! ### categorical columns and missing values -/
+
+/-- a column whose scaling is disabled (flatten column of a single-label or multi-label feature, or any target column of a
+    classification task) is never rescaled: `scale` and `upscale` are the identity on it in every mode, for any data -/
+theorem categorical_identity [Sqrt α] [FinTest α] (hfin : ∀ y : α, FinTest.isFin y = true)
+    (hi lo eps : α) (xs : List (Option α)) (m : Mode) (x : α) :
+    scaleCell m (columnStats hi lo eps false xs) (some x) = x ∧
+    upscaleCell m (columnStats hi lo eps false xs) x = x := by
+  cases m <;> simp [columnStats, finalize, scaleCell, upscaleCell, nan2zero, hfin]
+
+/-- a missing value is scaled to 0 in every mode, and the statistics are those of the present values alone -/
+theorem missing_to_zero_and_ignored [Sqrt α] [FinTest α] (hi lo eps : α) (enabled : Bool) (xs : List (Option α))
+    (m : Mode) (s : Stats α) :
+    scaleCell m s none = 0 ∧
+    columnStats hi lo eps enabled xs = columnStats hi lo eps enabled ((present xs).map some) ∧
+    (accumulate hi lo xs).n = (present xs).length := by
+  refine ⟨rfl, ?_, (accumulate_spec hi lo xs).1⟩
+  unfold columnStats
+  rw [accumulate_present]
+
+/-! ### the converted linear model is the same predictor -/
+
+/-- one output of `nano::upscale(...)`: for every weight row `w`, bias `b`, input statistics `fs` (any), target
+    statistics `t` with inverse `div`/`mul` pairs, every pair of modes and every finite raw input `x`:
+    `w'·x + b' = upscale_t(w·scale_x(x) + b)`. -/
+theorem affine_upscale_same_predictor_row [FinTest α] (hfin : ∀ y : α, FinTest.isFin y = true)
+    (fm tm : Mode) (fs : List (Stats α)) (t : Stats α) (ht : t.WF) (w x : List α) (b : α)
+    (hw : w.length = fs.length) (hx : x.length = fs.length) :
+    dot (upscaleAffineRow ((fs.map (makeScaling fm)).map Prod.fst) ((fs.map (makeScaling fm)).map Prod.snd)
+          (makeScaling tm t).1 (makeScaling tm t).2 w b).1 x +
+      (upscaleAffineRow ((fs.map (makeScaling fm)).map Prod.fst) ((fs.map (makeScaling fm)).map Prod.snd)
+          (makeScaling tm t).1 (makeScaling tm t).2 w b).2 =
+    upscaleCell tm t (dot w (List.zipWith (scaleCell fm) fs (x.map some)) + b) := by
+  obtain ⟨htw, hup⟩ := upscaleCell_affine tm t ht (dot w (List.zipWith (scaleCell fm) fs (x.map some)) + b)
+  have hscaled : List.zipWith (scaleCell fm) fs (x.map some) =
+      List.zipWith (fun (p : α × α) xj => p.1 * xj + p.2) (fs.map (makeScaling fm)) x := by
+    rw [List.zipWith_map_right, List.zipWith_map_left]
+    congr 1
+    funext s xj
+    exact scaleCell_affine hfin fm s xj
+  rw [hup, hscaled]
+  simp only [upscaleAffineRow]
+  rw [dot_upscaled _ htw (fs.map (makeScaling fm)) w x (by simpa using hw) (by simpa using hx)]
+  field_simp
+  ring
+
+theorem predict_rows [FinTest α] (hfin : ∀ y : α, FinTest.isFin y = true)
+    (fm tm : Mode) (fs : List (Stats α)) (x : List α) (hx : x.length = fs.length) :
+    ∀ (ts : List (Stats α)) (W : List (List α)) (b : List α), (∀ t ∈ ts, t.WF) →
+      b.length = ts.length → W.length = ts.length → (∀ r ∈ W, r.length = fs.length) →
+      predict
+        ((zip3With (fun (t : Stats α) w bi => upscaleAffineRow ((fs.map (makeScaling fm)).map Prod.fst)
+          ((fs.map (makeScaling fm)).map Prod.snd) (makeScaling tm t).1 (makeScaling tm t).2 w bi) ts W b).map Prod.fst)
+        ((zip3With (fun (t : Stats α) w bi => upscaleAffineRow ((fs.map (makeScaling fm)).map Prod.fst)
+          ((fs.map (makeScaling fm)).map Prod.snd) (makeScaling tm t).1 (makeScaling tm t).2 w bi) ts W b).map Prod.snd)
+        x =
+      List.zipWith (upscaleCell tm) ts (predict W b (List.zipWith (scaleCell fm) fs (x.map some)))
+  | [], W, b, _, hb, hW, _ => by
+    cases W <;> cases b <;> simp [zip3With, predict] at *
+  | t :: ts, W, b, hts, hb, hW, hr => by
+    cases W with
+    | nil => simp at hW
+    | cons w W =>
+      cases b with
+      | nil => simp at hb
+      | cons b0 b =>
+        have ih := predict_rows hfin fm tm fs x hx ts W b (fun t' h => hts t' (by simp [h]))
+          (by simpa using hb) (by simpa using hW) (fun r h => hr r (by simp [h]))
+        have hrow := affine_upscale_same_predictor_row hfin fm tm fs t (hts t (by simp)) w x b0
+          (hr w (by simp)) hx
+        simp only [predict] at ih ⊢
+        simp only [zip3With, List.map_cons, List.zipWith_cons_cons, hrow, ih]
+
+/-- `nano::upscale(flatten_stats, flatten_scaling, targets_stats, targets_scaling, W, b)`, n-dimensional: whenever the
+    call is legal (its three size asserts) it yields `(W', b')` such that for **every** finite raw input `x`
+    `W' x + b' = upscale_targets(W · scale_inputs(x) + b)`, for each of the 4×4 mode pairs, any input statistics and any
+    target statistics with inverse `div`/`mul` pairs (`div_mul_one`: everything `done` produces). -/
+theorem affine_upscale_same_predictor [FinTest α] (hfin : ∀ y : α, FinTest.isFin y = true)
+    (fm tm : Mode) (fs ts : List (Stats α)) (hts : ∀ t ∈ ts, t.WF)
+    (W : List (List α)) (b : List α) (W' : List (List α)) (b' : List α)
+    (h : upscaleAffine fm fs tm ts W b = some (W', b')) (x : List α) (hx : x.length = fs.length) :
+    (scaleRow fm fs (x.map some)).bind (fun sx => upscaleRow tm ts (predict W b sx)) = some (predict W' b' x) := by
+  unfold upscaleAffine at h
+  split at h
+  · rename_i hg
+    obtain ⟨hb, hW, hr⟩ := hg
+    simp only [Option.some.injEq, Prod.mk.injEq] at h
+    obtain ⟨hW', hb'⟩ := h
+    have hr' : ∀ r ∈ W, r.length = fs.length := by
+      intro r hr0
+      have := List.all_eq_true.mp hr r hr0
+      simpa using this
+    have hrows := predict_rows hfin fm tm fs x hx ts W b hts hb hW hr'
+    rw [← hW', ← hb', hrows]
+    have hlen : ts.length = (predict W b (List.zipWith (scaleCell fm) fs (x.map some))).length := by
+      simp [predict, hb, hW]
+    simp [scaleRow, upscaleRow, hx, hlen]
+  · cases h
+
+/-- the converse guard: with mismatching sizes (where the C++ `assert`s fire) the model refuses -/
+theorem affine_upscale_guard (fm tm : Mode) (fs ts : List (Stats α)) (W : List (List α)) (b : List α)
+    (h : b.length ≠ ts.length) : upscaleAffine fm fs tm ts W b = none := by
+  unfold upscaleAffine
+  simp [h]
+
+/-! ### non-vacuity (ℚ; `sqrt` on the one value that occurs) -/
+
+section examples
+
+local instance : Sqrt ℚ := ⟨fun v => if v = 1 then 1 else 0⟩
+local instance : FinTest ℚ := ⟨fun _ => true⟩
+
+/-- the data `1, missing, 3, 2`: N = 3, mean 2, variance 1, range 2 — every hypothesis of the theorems above holds -/
+def exData : List (Option ℚ) := [some 1, none, some 3, some 2]
+
+example : present exData = [1, 3, 2] := rfl
+example : ∀ v ∈ present exData, (-100 : ℚ) ≤ v ∧ v ≤ 100 := by
+  intro v hv; simp [exData, present] at hv; rcases hv with rfl | rfl | rfl <;> norm_num
+example : rawVar (accumulate (100 : ℚ) (-100) exData) = 1 := by
+  norm_num [exData, accumulate, Acc.init, Acc.push, rawVar, cmin, cmax]
+example : Sqrt.sqrt (rawVar (accumulate (100 : ℚ) (-100) exData)) *
+    Sqrt.sqrt (rawVar (accumulate (100 : ℚ) (-100) exData)) = rawVar (accumulate (100 : ℚ) (-100) exData) ∧
+    (1 / 100000000 : ℚ) ≤ Sqrt.sqrt (rawVar (accumulate (100 : ℚ) (-100) exData)) := by
+  norm_num [exData, accumulate, Acc.init, Acc.push, rawVar, cmin, cmax, Sqrt.sqrt]
+/-- the statistics `done` computes for it: min 1, max 3, mean 2, stdev 1, 1/range, range, 1/stdev, stdev -/
+example : columnStats (100 : ℚ) (-100) (1 / 100000000) true exData = ⟨3, 1, 3, 2, 1, 1 / 2, 2, 1, 1⟩ := by
+  norm_num [exData, columnStats, finalize, accumulate, Acc.init, Acc.push, rawVar, cmin, cmax, Sqrt.sqrt]
+/-- a constant column (the shape of the repaired defect): variance 0, stdev 0, divisors 1/ε, multipliers ε, and the
+    round trip still returns the value -/
+example : columnStats (100 : ℚ) (-100) (1 / 100000000) true [some (1 / 10), some (1 / 10), some (1 / 10)] =
+    ⟨3, 1 / 10, 1 / 10, 1 / 10, 0, 100000000, 1 / 100000000, 100000000, 1 / 100000000⟩ := by
+  norm_num [columnStats, finalize, accumulate, Acc.init, Acc.push, rawVar, cmin, cmax, Sqrt.sqrt]
+example : upscaleCell .standard (columnStats (100 : ℚ) (-100) (1 / 100000000) true [some (1 / 10), some (1 / 10), some (1 / 10)])
+    (scaleCell .standard (columnStats (100 : ℚ) (-100) (1 / 100000000) true [some (1 / 10), some (1 / 10), some (1 / 10)])
+      (some (7 / 3))) = 7 / 3 :=
+  upscale_scale_id (fun _ => rfl) 100 (-100) (1 / 100000000) (by norm_num) true _ .standard (7 / 3)
+/-- a legal call of the affine conversion (2 inputs, 1 output), so the hypothesis of `affine_upscale_same_predictor`
+    is satisfiable; and an illegal one is refused -/
+example : (upscaleAffine .standard
+      [columnStats (100 : ℚ) (-100) (1 / 100000000) true exData, columnStats (100 : ℚ) (-100) (1 / 100000000) false exData]
+      .minmax [columnStats (100 : ℚ) (-100) (1 / 100000000) true exData] [[2, 5]] [7]).isSome = true := by
+  simp [upscaleAffine]
+example : upscaleAffine Mode.mean ([] : List (Stats ℚ)) Mode.mean [] [[1]] [] = none := by
+  simp [upscaleAffine]
+
+end examples
 
 end NanoVerif.Scaling
